@@ -1141,6 +1141,211 @@ def chunk_placement(rep):
     rep.ok("chunk-axis", key + "::grouping")
 
 
+def glob_anchor(rep):
+    """A number read out of the path of a file that was selected by a glob pattern must be
+    located by the complete literal part of that pattern's file name (the text between the last
+    '/' and the '*'), so that nothing in the directory part -- the simulation name, the location
+    of the simulation -- can be mistaken for it."""
+    import re as _re
+    S = rep.sources
+    n = 0
+    for q in ("iterations",):
+        fn = S.function(RD, q)
+        globs = {}
+        for a in ast.walk(fn):
+            if isinstance(a, ast.Assign) and isinstance(a.value, ast.Call) \
+                    and unparse(a.value.func) == "glob.glob" and a.value.args \
+                    and isinstance(a.targets[0], ast.Name):
+                consts = [c.value for c in ast.walk(a.value.args[0])
+                          if isinstance(c, ast.Constant) and isinstance(c.value, str)
+                          and "*" in c.value]
+                if consts:
+                    last = consts[-1]
+                    prefix = last[:last.index("*")].rsplit("/", 1)[-1]
+                    if prefix:
+                        globs[a.targets[0].id] = prefix
+        # names holding (a selection of) the globbed paths: aliases and filtered copies
+        for _ in range(4):
+            for a in ast.walk(fn):
+                if isinstance(a, ast.Assign) and isinstance(a.targets[0], ast.Name) \
+                        and a.targets[0].id not in globs:
+                    src = None
+                    if isinstance(a.value, ast.Name):
+                        src = a.value.id
+                    elif isinstance(a.value, (ast.ListComp, ast.GeneratorExp)) \
+                            and len(a.value.generators) == 1 \
+                            and isinstance(a.value.generators[0].iter, ast.Name) \
+                            and unparse(a.value.elt) == unparse(a.value.generators[0].target):
+                        src = a.value.generators[0].iter.id
+                    elif isinstance(a.value, ast.Call) and unparse(a.value.func) in (
+                            "sorted", "list") and a.value.args \
+                            and isinstance(a.value.args[0], ast.Name):
+                        src = a.value.args[0].id
+                    if src in globs:
+                        globs[a.targets[0].id] = globs[src]
+        for lp in [x for x in ast.walk(fn) if isinstance(x, ast.For)
+                   and isinstance(x.target, ast.Name) and isinstance(x.iter, ast.Name)
+                   and x.iter.id in globs]:
+            v, prefix = lp.target.id, globs[lp.iter.id]
+            for c in [x for x in ast.walk(lp) if isinstance(x, ast.Call)
+                      and unparse(x.func) == "int" and x.args]:
+                arg = resolve(fn, c.args[0], 0, {v})
+                if not any(isinstance(x, ast.Name) and x.id == v for x in ast.walk(arg)):
+                    continue
+                n += 1
+                key = f"{RD}::{q}::number-in-path({prefix}*)"
+                anchors = []
+                for x in ast.walk(arg):
+                    if isinstance(x, ast.Call) and isinstance(x.func, ast.Attribute) \
+                            and isinstance(x.func.value, ast.Name) and x.func.value.id == v \
+                            and x.func.attr in ("split", "rsplit", "partition", "rpartition") \
+                            and x.args and isinstance(x.args[0], ast.Constant):
+                        anchors.append(("literal", x.args[0].value))
+                    if isinstance(x, ast.Call) and unparse(x.func) in (
+                            "re.search", "re.match", "re.findall", "re.fullmatch") \
+                            and len(x.args) >= 2 and isinstance(x.args[0], ast.Constant) \
+                            and any(isinstance(y, ast.Name) and y.id == v
+                                    for y in ast.walk(x.args[1])):
+                        anchors.append(("pattern", x.args[0].value))
+                if not anchors:
+                    raise AnalysisError(f"{q}: how `{norm_src(c)[:60]}` locates the number in "
+                                        "the path was not understood")
+                ok = all((kind == "literal" and prefix in txt)
+                         or (kind == "pattern" and (_re.escape(prefix) in txt or prefix in txt))
+                         for kind, txt in anchors)
+                rep.check(ok, "regex-groups", key,
+                          f"`{norm_src(c)[:70]}` locates the number by {anchors[0][1]!r}; the "
+                          f"files were selected by `{prefix}*`: anything shorter than that "
+                          "prefix can also occur in the directory part of the path (simulation "
+                          "name, location)", node=c)
+    if n < 1:
+        raise AnalysisError("glob-anchor: no number parsed from a globbed path was found")
+
+
+def separator_guard(rep):
+    """Whether the directory separator is inserted between the data path and the file name may
+    depend only on the text of the path (does it end in '/') and on the layout choice
+    ('simulation' in param) -- never on the state of the file system or on anything else:
+    writer and reader must name the same file for the same parameters in every call."""
+    S = rep.sources
+    n = 0
+    for q in ("save_data", "read_aurel_data"):
+        fn = S.function(RD, q)
+        sites = []
+        for st in ast.walk(fn):
+            if isinstance(st, ast.AugAssign) and isinstance(st.op, ast.Add) \
+                    and isinstance(st.value, ast.Constant) and st.value.value == "/":
+                sites.append(st)
+            elif isinstance(st, ast.Assign) and isinstance(st.value, ast.Constant) \
+                    and st.value.value == "/" and isinstance(st.targets[0], ast.Name):
+                sites.append(st)
+            elif isinstance(st, ast.Assign) and isinstance(st.value, ast.BinOp) \
+                    and isinstance(st.value.op, ast.Add) \
+                    and isinstance(st.value.right, ast.Constant) \
+                    and st.value.right.value == "/" \
+                    and unparse(st.targets[0]) == unparse(st.value.left):
+                sites.append(st)
+        for st in sites:
+            n += 1
+            bad = []
+            child, par = st, getattr(st, "_parent", None)
+            while par is not None and par is not fn:
+                if isinstance(par, ast.If):
+                    t = unparse(par.test)
+                    ok = ".endswith('/')" in t or "'simulation' in param" in t
+                    if not ok:
+                        bad.append(t)
+                elif isinstance(par, (ast.For, ast.While, ast.Try, ast.With)):
+                    bad.append(type(par).__name__.lower() + " block")
+                child, par = par, getattr(par, "_parent", None)
+            rep.check(not bad, "template-agreement", f"{RD}::{q}::separator-guard",
+                      f"`{norm_src(st)[:40]}` (the '/' between the data path and the file name) "
+                      f"is only executed under `{'`, `'.join(bad)}`: whether the separator is "
+                      "inserted must depend on the text of the path alone", node=st)
+    if n < 2:
+        raise AnalysisError("separator-guard: the sites inserting the separator were not found")
+
+
+def chunk_coverage(rep):
+    """Every chunk stored in a file is read: the loop over chunk numbers runs over
+    arange(M + 1) where M is the *maximum* of the chunk numbers parsed from all the keys of the
+    iteration (or 0 when the keys carry no chunk number) -- not a number read off one key, whose
+    position in a listing is a matter of string order ('c=9' sorts after 'c=10')."""
+    S = rep.sources
+    n = 0
+    for q in ("read_ET_group_or_var", "read_ET_checkpoints"):
+        fn = S.function(RD, q)
+        for lp in [x for x in ast.walk(fn) if isinstance(x, ast.For)
+                   and isinstance(x.target, ast.Name) and isinstance(x.iter, ast.Name)]:
+            c = lp.target.id
+            # a loop over chunk numbers: its variable is compared with the parsed 'c' of a key
+            uses = [cmp for cmp in ast.walk(lp) if isinstance(cmp, ast.Compare)
+                    and len(cmp.ops) == 1 and isinstance(cmp.ops[0], ast.Eq)
+                    and any(isinstance(x, ast.Name) and x.id == c for x in ast.walk(cmp))
+                    and "['c']" in unparse(cmp)]
+            if not uses:
+                continue
+            rng = [a for a in ast.walk(fn) if isinstance(a, ast.Assign)
+                   and unparse(a.targets[0]) == lp.iter.id and isinstance(a.value, ast.Call)
+                   and unparse(a.value.func) in ("np.arange", "range") and a.value.args]
+            for a in rng:
+                arg = a.value.args[-1] if len(a.value.args) <= 2 else a.value.args[1]
+                key = f"{RD}::{q}::chunk-range"
+                ok_shape = isinstance(arg, ast.BinOp) and isinstance(arg.op, ast.Add) \
+                    and isinstance(arg.left, ast.Name) and const_value(arg.right) == 1 \
+                    and (len(a.value.args) == 1 or const_value(a.value.args[0]) == 0)
+                if not ok_shape:
+                    n += 1
+                    rep.violation("chunk-coverage", key,
+                                  f"`{norm_src(a)[:60]}` does not run over 0..M", node=a)
+                    continue
+                M = arg.left.id
+                # the definitions of M that reach this statement: those in the same branch
+                blk = parent_stmt(a)._parent if hasattr(parent_stmt(a), "_parent") else fn
+                defs = [d for d in ast.walk(blk) if isinstance(d, ast.Assign)
+                        and unparse(d.targets[0]) == M and d.lineno < a.lineno]
+                if not defs:
+                    raise AnalysisError(f"{q}: the chunk count `{M}` is not assigned before "
+                                        "the chunk range")
+                for d in defs:
+                    n += 1
+                    v = d.value
+                    good = const_value(v) == 0
+                    if isinstance(v, ast.Call) and unparse(v.func) in ("np.max", "max",
+                                                                       "np.amax") and v.args:
+                        comp = v.args[0]
+                        if isinstance(comp, (ast.ListComp, ast.GeneratorExp)) \
+                                and len(comp.generators) == 1 and not comp.generators[0].ifs:
+                            g = comp.generators[0]
+                            # over the same collection of keys that the chunk loop filters
+                            pool = set()
+                            for cmp in uses:
+                                for anc in ancestors(cmp):
+                                    if isinstance(anc, (ast.ListComp, ast.GeneratorExp)):
+                                        it0 = anc.generators[0].iter
+                                        if isinstance(it0, ast.Name):
+                                            pool.add(it0.id)
+                                            d0 = single_defs(fn).get(it0.id)
+                                            if isinstance(d0, (ast.ListComp, ast.GeneratorExp)) \
+                                                    and isinstance(d0.generators[0].iter,
+                                                                   ast.Name):
+                                                pool.add(d0.generators[0].iter.id)
+                            elt = comp.elt
+                            good = isinstance(g.target, ast.Name) and isinstance(
+                                g.iter, ast.Name) and g.iter.id in pool \
+                                and isinstance(elt, ast.Subscript) \
+                                and isinstance(elt.slice, ast.Constant) \
+                                and elt.slice.value == "c" and any(
+                                    isinstance(x, ast.Name) and x.id == g.target.id
+                                    for x in ast.walk(elt.value))
+                    rep.check(good, "chunk-coverage", f"{key}::{M}@{norm_src(d)[:40]}",
+                              f"the number of chunks `{norm_src(d)[:70]}` is not the maximum of "
+                              "the chunk numbers of all the keys of the iteration: chunks "
+                              "beyond it are never read", node=d)
+    if n < 2:
+        raise AnalysisError("chunk-coverage: the chunk ranges were not found")
+
+
 def ghost_and_axes(rep):
     """Decided on resolved expressions (temporaries and aliases substituted)."""
     import re
